@@ -196,6 +196,11 @@ func (u *URI) SetPasswordBytes(password []byte) {
 //
 // The returned value is valid until the next URI method call.
 func (u *URI) QueryString() []byte {
+	if u.parsedQueryArgs {
+		// the argument list is the current query (possibly edited through
+		// QueryArgs()): this is what RequestURI writes
+		u.queryString = u.queryArgs.AppendBytes(u.queryString[:0])
+	}
 	return u.queryString
 }
 
